@@ -167,6 +167,50 @@ def check_fitter(ctx):
                    '; '.join(bad), 'argument-order')
 
 
+class FilterDictHooks(FitterHooks):
+    def __init__(self):
+        FitterHooks.__init__(self)
+        self.read_filters = None
+
+    def opaque(self, interp, fi, args, kwargs, node):
+        if fi.qual.endswith(':Models.read'):
+            bound = dict(zip(fi.params, args))
+            bound.update(kwargs)
+            self.read_filters = bound.get('filters')
+        return FitterHooks.opaque(self, interp, fi, args, kwargs, node)
+
+
+def check_filter_dicts(ctx):
+    """Fitter.__init__ -> the filter dictionaries handed to the readers: the aperture of filter w, whatever angular unit the caller used,
+    is stored as a number of arcseconds (the readers multiply it by the distance in pc to get AU), next to the name / wavelength of the same filter."""
+    from ..interp import GenList
+    repo = ctx.repo
+    init = ctx.fn(repo.func('fit', 'Fitter.__init__'))
+    ext = Obj(repo.cls('extinction.extinction', 'Extinction'))
+    for tag, names in (('named filters', GenList(W, 'FNAME')), ('wavelengths in place of names', GenList(W, Arr((), sym('fwav', W), unit=unit_atom('micron'))))):
+        h = FilterDictHooks()
+        I = Interp(repo, h)
+        me = Obj(repo.cls('fit', 'Fitter'))
+        I.call(init, [names, symarr('theta', (W,), unit=unit_atom('Uang')), 'dir'],
+               {'extinction_law': ext, 'av_range': (scalar(sym('lo')), scalar(sym('hi'))), 'distance_range': symarr('drange', ('two',), unit=unit_atom('kpc'))}, selfv=me)
+        fl = h.read_filters
+        inst = 'filter dictionaries (%s)' % tag
+        if isinstance(fl, GenList) and isinstance(fl.elem, dict):
+            d = fl.elem
+        elif isinstance(fl, list) and len(fl) == 1 and isinstance(fl[0], dict):
+            d = fl[0]
+        else:
+            ctx.undecided('ALG-8', inst, loc(init), 'filters passed to Models.read not modelled: %r' % (fl,))
+            continue
+        compare(ctx, 'ALG-8', inst + ': aperture in arcsec', loc(init), d.get('aperture_arcsec'), sym('theta', W) * unit_atom('arcsec').pow(-1), (), vocab={'theta'}, findings=I.findings,
+                detail_ok="filt['aperture_arcsec'] == aperture[w] / arcsec for an aperture given in any angular unit")
+        if tag == 'named filters':
+            ctx.expect(d.get('name') == 'FNAME', 'ALG-8', inst + ': name of the same filter', loc(init), "filt['name'] == filter_names[w]",
+                       "filter dictionary holds name=%r wav=%r" % (d.get('name'), d.get('wav')), 'filter-name')
+        else:
+            compare(ctx, 'ALG-8', inst + ': wavelength of the same filter', loc(init), d.get('wav'), sym('fwav', W), (), vocab={'fwav'}, detail_ok="filt['wav'] == filter_names[w]")
+
+
 class LogFluxHooks(Hooks):
     pass
 
@@ -201,6 +245,7 @@ def run(ctx):
     check_kernels(ctx)
     check_fit_2d(ctx)
     check_fitter(ctx)
+    check_filter_dicts(ctx)
     check_log_fluxes(ctx)
     check_flag_weights(ctx)
     from . import c14
@@ -214,6 +259,9 @@ FT = 'sedfitter/fit.py'
 SO = 'sedfitter/source/source.py'
 
 MUST_FIRE = [
+    ('Fitter: aperture kept in the unit the caller used', [(FT, "filt = {'aperture_arcsec': apertures[i].to(u.arcsec).value}", "filt = {'aperture_arcsec': apertures[i].value}")]),
+    ('Fitter: aperture stored in arcmin', [(FT, "filt = {'aperture_arcsec': apertures[i].to(u.arcsec).value}", "filt = {'aperture_arcsec': apertures[i].to(u.arcmin).value}")]),
+    ('Fitter: every filter gets the first aperture', [(FT, "filt = {'aperture_arcsec': apertures[i].to(u.arcsec).value}", "filt = {'aperture_arcsec': apertures[0].to(u.arcsec).value}")]),
     ('log-flux buffer inherits the caller dtype', [(SO, "log_flux = np.zeros(self.flux.shape, dtype=np.float64)", "log_flux = np.zeros_like(self.flux)")]),
     ('weight buffer created as integers', [(SO, "weight = np.zeros(self.valid.shape, dtype=np.float64)", "weight = np.zeros(self.valid.shape, dtype=int)")]),
     ('LR: sign of m12*c2', [(FR, 'p1 = (m22 * c1 - m12 * c2) * inv_det', 'p1 = (m22 * c1 + m12 * c2) * inv_det')]),
@@ -246,6 +294,10 @@ MUST_FIRE = [
 ]
 
 MUST_SILENT = [
+    ('Fitter: apertures converted once before the loop', [(FT, "        for i in range(len(apertures)):\n            filt = {'aperture_arcsec': apertures[i].to(u.arcsec).value}",
+                                                           "        apertures_arcsec = apertures.to(u.arcsec).value\n        for i in range(len(apertures)):\n            filt = {'aperture_arcsec': apertures_arcsec[i]}")]),
+    ('Fitter: loop over zip(names, apertures)', [(FT, "        for i in range(len(apertures)):\n            filt = {'aperture_arcsec': apertures[i].to(u.arcsec).value}\n            if isinstance(filter_names[i], str):\n                filt['name'] = filter_names[i]\n            elif isinstance(filter_names[i], u.Quantity):\n                filt['wav'] = filter_names[i]",
+                                                  "        for fname, ap in zip(filter_names, apertures.to(u.arcsec).value):\n            filt = {'aperture_arcsec': float(ap)}\n            if isinstance(fname, str):\n                filt['name'] = fname\n            elif isinstance(fname, u.Quantity):\n                filt['wav'] = fname")]),
     ('buffers created with zeros_like and an explicit float dtype', [(SO, "log_flux = np.zeros(self.flux.shape, dtype=np.float64)", "log_flux = np.zeros_like(self.flux, dtype=float)")]),
     ('buffers created with the default dtype', [(SO, "log_error = np.zeros(self.error.shape, dtype=np.float64)", "log_error = np.zeros(self.error.shape)")]),
     ('LR: commuted products', [(FR, 'c1 = np.sum(data * pattern1 * weights, axis=1)', 'c1 = np.sum(weights * pattern1 * data, axis=1)')]),
